@@ -27,7 +27,8 @@ type half struct {
 	stall    bool  // virtual time: a read that would block with an armed deadline times out at once
 	werr     error // injected write error
 	waiters  int   // readers blocked because the queue is empty
-	window   int   // > 0: a writer blocks while this many octets are unread (a peer that stops reading stalls it)
+	window   int   // > 0: a writer blocks while this many octets are unread (a peer that stops reading stalls it); < 0: every write blocks
+	wwaiters int   // writers blocked by the window
 }
 
 func newHalf() *half { h := &half{}; h.cond = sync.NewCond(&h.mu); return h }
@@ -44,8 +45,10 @@ func (h *half) write(p []byte) (int, error) {
 	if h.rclosed {
 		return 0, io.ErrClosedPipe // the peer is gone
 	}
-	for h.window > 0 && len(h.buf) >= h.window {
+	for h.window < 0 || (h.window > 0 && len(h.buf) >= h.window) {
+		h.wwaiters++
 		h.cond.Wait()
+		h.wwaiters--
 		if h.werr != nil {
 			return 0, h.werr
 		}
@@ -72,7 +75,7 @@ func (h *half) read(p []byte) (int, error) {
 		if len(h.buf) > 0 {
 			n := copy(p, h.buf)
 			h.buf = h.buf[n:]
-			if h.window > 0 {
+			if h.window != 0 {
 				h.cond.Broadcast()
 			}
 			return n, nil
@@ -166,12 +169,21 @@ func (c *Conn) PeerGone() {
 }
 
 // SetPeerWindow bounds what the peer may write to this end without it being read (0 = unbounded): like a
-// TCP receive window, a peer writing to an end that has stopped reading eventually blocks.
+// TCP receive window, a peer writing to an end that has stopped reading eventually blocks.  A negative
+// window is a full one: the peer's next write blocks whatever has been read.
 func (c *Conn) SetPeerWindow(n int) {
 	c.r.mu.Lock()
 	c.r.window = n
 	c.r.cond.Broadcast()
 	c.r.mu.Unlock()
+}
+
+// PeerBlockedInWrite tells whether the peer is blocked in a Write to this end because of the window (it has
+// produced something this end is not taking).
+func (c *Conn) PeerBlockedInWrite() bool {
+	c.r.mu.Lock()
+	defer c.r.mu.Unlock()
+	return c.r.wwaiters > 0
 }
 
 // PeerBlockedInRead tells whether the peer has consumed everything written so far and is blocked in Read
